@@ -67,6 +67,8 @@ def run(tier):
     import time
     t0 = time.time()
     cases = corpus.generate(rep, specs, timeout=900 if tier == "quick" else 3000)
+    if tier == "thorough":
+        cases = corpus.cap(cases, 60000)
     rep.extra["generate_s"] = round(time.time() - t0, 1)
     if tier == "quick":
         keep = {"elementwise": 4, "update_at": 10, "get_at": 2, "id": 2}      # quick: every k-th case of the largest families
